@@ -644,6 +644,30 @@ def run_c05(ctx):
             if errs:
                 ctx["violations"].append((f"{name}: {errs[0]}", {"kind": "subroutine-law", "program": text}))
         ctx["cov"]["graphs_checked_against_laws"] = n
+        # last sentence of C05: the call-graph export has an edge f -> g exactly when a callsub RETAINED in f targets g.
+        # Expected edges are read off the implementation's own parse result (retained call sites per routine); the export is
+        # the file the real CLI writes.  All adversarial layouts + a sample of the other programs with call sites.
+        import cli
+        cand = [(name, text, i) for name, text, meta, m, i in results
+                if "blocks" in i and "subs" in i and any(b["ins"] and b["ins"][-1].startswith("callsub ") for b in i["blocks"])]
+        adv = [c for c in cand if c[0].startswith("adv:")]
+        rest = [c for c in cand if not c[0].startswith("adv:")]
+        sample = adv + rest[:: max(1, len(rest) // (12 if ctx["tier"] == "quick" else 120))]
+        outs = par_map(lambda c: cli.call_graph_edges(c[1]), sample)
+        ncg = 0
+        for (name, text, i), (got, rc, err) in zip(sample, outs):
+            blocks = {b["idx"]: b for b in i["blocks"]}
+            exp = set()
+            for rn in [i["main"]] + i["subs"]:
+                for b in rn["blocks"]:
+                    if b in blocks and blocks[b]["ins"][-1].startswith("callsub "):
+                        exp.add((rn["name"], blocks[b]["ins"][-1].split()[1]))
+            ncg += 1
+            if got is None:
+                ctx["violations"].append((f"{name}: call-graph printer wrote no file (exit status {rc}) although the contract has retained call sites {sorted(exp)}: {err}", {"kind": "call-graph", "program": text}))
+            elif got != sorted(exp):
+                ctx["violations"].append((f"{name}: call-graph export has edges {got}, the retained call sites are {sorted(exp)}", {"kind": "call-graph", "program": text}))
+        ctx["cov"]["call_graph_exports_read_back"] = ncg
     generic_run(ctx, cmp_for(), set(), extra=extra)
 
 
